@@ -47,7 +47,7 @@ def _task(sc):
 def run_generic(tier, report, prop, which, filt=None):
     global WHICH
     WHICH = which
-    scs = [s for s in scenarios(tier) if filt is None or filt(s)]
+    scs = [s for s in scenarios(tier) if 'faults-only' not in s.tags and (filt is None or filt(s))]
     results = pmap(_task, scs)
     total = 0
     distinct = set()
